@@ -37,8 +37,9 @@ META = {
                   'there; the -race run is the evidence), concurrent reconfiguration while calls run (outside the property).',
 }
 
-KINDS = ['f1', 'f2', 'me', 'if']
-CONC_KINDS = ['f1', 'me', 'if']
+KINDS = ['f1', 'f2', 'me', 'if', 'v0', 'v1', 'v2', 'vm']
+VARIADIC = {'v0': 0, 'v1': 1, 'v2': 2, 'vm': 1}  # kind -> number of leading fixed parameters
+CONC_KINDS = ['f1', 'me', 'if', 'v1', 'v0']
 OFF2 = 100000  # value offset of the second sequence in `c05.conc … c …` (the probe subtracts it)
 
 
@@ -99,19 +100,62 @@ def rand_len(rng):
     return 2 + rng.below(6)
 
 
+def vtok(xs):
+    """argument list of a variadic target as one token: digit d = argument d-1 ("24" = (1, 3), 0 = no arguments)"""
+    return int(''.join(str(x + 1) for x in xs)) if xs else 0
+
+
+def arg_pool(rng, kind):
+    """(tokens a call may use, tokens a condition may use).  Variadic targets: argument lists of two or three arities, several
+    per arity, so that same-arity and different-arity conditions are declared back to back."""
+    if kind not in VARIADIC:
+        dom = 3 + rng.below(6)
+        return list(range(dom + 1)), list(range(dom))
+    fixed = VARIADIC[kind]
+    calls, conds = [], []
+    for ar in sorted({fixed + 1 + rng.below(3) for _ in range(2 + rng.below(2))}):
+        for _ in range(2 + rng.below(3)):
+            t = vtok([rng.below(3) for _ in range(ar)])
+            calls.append(t)
+            conds.append(t)
+    calls.append(vtok([rng.below(3) for _ in range(fixed)]))          # no variadic values at all
+    calls.append(vtok([rng.below(3) for _ in range(fixed + 1 + rng.below(3))]))
+    return calls, conds
+
+
+def rand_vals(rng, base, ln):
+    """A result sequence in which adjacent positions often carry the same value (v,v,w: a dropped or merged position shows),
+    sometimes a value that differs only in the second tuple component of the two-result target (+50), sometimes an earlier value."""
+    vals, cur = [], base
+    for i in range(ln):
+        if i:
+            r = rng.below(10)
+            if r < 4:
+                pass
+            elif r == 4:
+                cur += 50
+            elif r == 5:
+                cur = base
+            else:
+                cur += 1
+        vals.append(cur)
+    return vals
+
+
 def gen_spec(rng):
     """A history inside the scope of the property: configure (default sequence, then conditions with their sequences), then only
     call.  Returns (line, stubs, default) with stubs = [(cond, values)] in match order."""
     kind = rng.choice(KINDS)
-    dom = 3 + rng.below(6)
+    var = kind in VARIADIC
+    call_pool, cond_pool = arg_pool(rng, kind)
+    dom = len(cond_pool)
     toks = []
     have_when = False
     dflt = None
-    nstub = rng.below(5)
+    nstub = rng.below(5) + (rng.below(3) if var else 0)
     mode = rng.below(3) if nstub else 1 + rng.below(2)
     if mode:
-        ln = rand_len(rng)
-        dflt = [9000 + i for i in range(ln)]
+        dflt = rand_vals(rng, 9000, rand_len(rng))
         if mode == 1:
             toks.append('mS:' + ','.join(map(str, dflt)))
         else:
@@ -122,12 +166,12 @@ def gen_spec(rng):
     for s in range(nstub):
         if have_when and rng.chance(1, 5):
             # Matches(Pair{a, v}, …): every pair is its own one-element stub
-            pairs = [(rng.below(dom), 100 * (s + 1) + 50 + j) for j in range(1 + rng.below(3))]
+            pairs = [(rng.choice(cond_pool), 1000 * (s + 1) + 500 + (j if rng.chance(1, 2) else 0)) for j in range(1 + rng.below(3))]
             toks.append('wM:' + ','.join(f'{a}={v}' for a, v in pairs))
             stubs += [(('e', [a]), [v]) for a, v in pairs]
             continue
-        c = rand_cond(rng, dom)
-        vals = [100 * (s + 1) + i for i in range(min(rand_len(rng), 49))]
+        c = ('e', [rng.choice(cond_pool)]) if var else rand_cond(rng, dom)
+        vals = rand_vals(rng, 1000 * (s + 1), min(rand_len(rng), 49))
         if not have_when or (c[0] != 'i' and rng.chance(1, 3)):
             if c[0] == 'i':
                 c = ('e', [c[1][0]])
@@ -142,9 +186,9 @@ def gen_spec(rng):
             toks += [f'wA:{v}' for v in vals[1:]]
         stubs.append((c, vals))
     ncall = 4 + rng.below(40) + (rng.below(200) if rng.chance(1, 8) else 0)
-    hot = rng.below(dom)
+    hot = rng.choice(call_pool)
     for _ in range(ncall):
-        a = hot if rng.chance(1, 3) else rng.below(dom + 1)
+        a = hot if rng.chance(1, 4) else rng.choice(call_pool)
         toks.append(f'C:{a}')
     return f'c05.seq {kind} ' + ' '.join(toks), stubs, dflt
 
@@ -215,18 +259,21 @@ def spec_of_line(line):
 def gen_free(rng):
     """Anything the API allows: configuration and calls interleaved, repeated Return on one condition, AndReturn first, …"""
     kind = rng.choice(KINDS)
-    dom = 2 + rng.below(5)
+    var = kind in VARIADIC
+    call_pool, cond_pool = arg_pool(rng, kind)
+    dom = len(cond_pool)
     toks = []
     nxt = [1]
 
     def val():
-        nxt[0] += 1
+        if not rng.chance(1, 3):   # otherwise: the same value again
+            nxt[0] += 1
         return nxt[0]
 
     for _ in range(2 + rng.below(30)):
         r = rng.below(20)
         if r < 8:
-            toks.append(f'C:{rng.below(dom + 1)}')
+            toks.append(f'C:{rng.choice(call_pool)}')
         elif r < 10:
             toks.append(f'{rng.choice(["mR", "wR"])}:{val()}')
         elif r < 13:
@@ -234,9 +281,9 @@ def gen_free(rng):
         elif r < 15:
             toks.append(rng.choice(['mS', 'wS']) + ':' + ','.join(str(val()) for _ in range(rng.below(5))))
         elif r == 15:
-            toks.append('wM:' + ','.join(f'{rng.below(dom)}={val()}' for _ in range(1 + rng.below(3))))
+            toks.append('wM:' + ','.join(f'{rng.choice(cond_pool)}={val()}' for _ in range(1 + rng.below(3))))
         else:
-            c = rand_cond(rng, dom)
+            c = ('e', [rng.choice(cond_pool)]) if var else rand_cond(rng, dom)
             if c[0] != 'i' and rng.chance(1, 2):
                 toks.append('mW:' + show_cond(c))
             else:
@@ -257,7 +304,7 @@ def gen_conc(tier, rng, count):
         K = rng.choice([1, 2, 3, 4, 8, 16] + ([64] if tier == 'thorough' else []))
         total = G * K
         n = rng.choice([1, 2, 2, 3, 4, max(2, total // 4), max(2, total // 2), total, total + 7, 2 * total])
-        mode = 'c' if rng.chance(1, 3) and G >= 2 else 'd'
+        mode = 'c' if rng.chance(1, 3) and G >= 2 else ('r' if rng.chance(1, 6) else 'd')
         ops.append(f'c05.conc {rng.choice(CONC_KINDS)} {mode} {n} {G} {K}')
     return ops
 
@@ -274,6 +321,14 @@ def parse_hist(s):
             t, v = tok[1:].split('=')
             evs.append(('r', int(t), int(v)))
     return evs
+
+
+def split_part(part):
+    """'n5 i0 r0=1 …' -> (5, 'i0 r0=1 …'): number of results the stub holds (read by the probe), visible events"""
+    toks = part.split()
+    if toks and toks[0][0] == 'n':
+        return (int(toks[0][1:]) if toks[0][1:].isdigit() else -1), ' '.join(toks[1:])
+    return None, part
 
 
 def hist_oracle(n, evs):
@@ -458,13 +513,22 @@ def validate_conc(exe, ops, impl, tag):
         if obs is None or obs.startswith('config-panic') or obs == 'bad-op':
             res['oracle_bad'].append((i, op, obs, 'no history (probe crashed or configuration panicked)'))
             continue
-        for hs in obs.split(' ; '):
+        repeated = toks[2] == 'r'
+        for part in obs.split(' ; '):
+            held, hs = split_part(part)
             evs = parse_hist(hs)
             res['histories'] += 1
             res['calls'] += sum(1 for e in evs if e[0] == 'r')
-            why = hist_oracle(n, evs)
+            if held is not None and held != n:
+                res['oracle_bad'].append((i, op, part, f'the stub was given a sequence of {n} results but holds {held} positions'))
+                continue
+            # mode r configures every value twice in a row: values are then not positions; the value-level clauses still apply
+            why = hist_oracle((n + 1) // 2 if repeated else n, evs)
             if why:
-                res['oracle_bad'].append((i, op, hs, why))
+                res['oracle_bad'].append((i, op, part, why + (' (values, sequence 0,0,1,1,…)' if repeated else '')))
+                continue
+            if repeated:
+                res['repeated_value_histories'] = res.get('repeated_value_histories', 0) + 1
                 continue
             vals = [e[2] for e in evs if e[0] == 'r']
             dups = sum(1 for v in set(vals) if v < n - 1 and vals.count(v) > 1) if len(vals) < 4000 else 0
@@ -711,6 +775,18 @@ def write_evidence(out, tier, proof, r, changed, widened):
             adv = sum(1 for k in cnt if k > 0) + (1 if dcnt else 0)
             if adv >= 2:
                 dist['histories_with_>=2_stubs_advancing'] += 1
+            if t[1] in VARIADIC:
+                dist['variadic_spec_histories'] = dist.get('variadic_spec_histories', 0) + 1
+                ar = [len(str(cd[1][0])) for cd, _ in stubs]
+                dist['variadic_same_arity_conditions_back_to_back'] = dist.get('variadic_same_arity_conditions_back_to_back', 0) + \
+                    sum(1 for x, y in zip(ar, ar[1:]) if x == y)
+                dist['variadic_different_arity_conditions_back_to_back'] = dist.get('variadic_different_arity_conditions_back_to_back', 0) + \
+                    sum(1 for x, y in zip(ar, ar[1:]) if x != y)
+            for (cd, vs), k in zip(stubs + ([(None, dflt)] if dflt else []), cnt + [dcnt]):
+                rep = sum(1 for x, y in zip(vs, vs[1:]) if x == y)
+                dist['adjacent_equal_results_configured'] = dist.get('adjacent_equal_results_configured', 0) + rep
+                if rep and k > 1:
+                    dist['sequences_with_adjacent_equal_results_consumed'] = dist.get('sequences_with_adjacent_equal_results_consumed', 0) + 1
             for (cd, vs), k in zip(stubs, cnt):
                 dist['calls_past_end_of_sequence'] += max(0, k - len(vs))
                 dist['max_sequence_len'] = max(dist['max_sequence_len'], len(vs))
@@ -728,7 +804,7 @@ def write_evidence(out, tier, proof, r, changed, widened):
         if any(v.startswith('v') for v in vals):
             nontrivial.add(op)
     conc_dist = {'rounds': len(r['conc_ops']), 'histories': c['histories'], 'calls': c['calls'], 'histories_where_two_callers_got_the_same_position (race window hit)': c['race_hits'],
-                 'duplicated_positions': c['dup_positions'], 'max_simultaneously_open_calls': c['max_overlap'], 'admitted_by_model': c['admitted'],
+                 'duplicated_positions': c['dup_positions'], 'max_simultaneously_open_calls': c['max_overlap'], 'admitted_by_model': c['admitted'], 'repeated_value_histories (value-level clauses + stub length only)': c.get('repeated_value_histories', 0),
                  'witness_by_greedy_search': c['witness_greedy'], 'witness_by_exhaustive_search': c['witness_dfs'], 'inconclusive': len(c['inconclusive'])}
     if rc:
         conc_dist['under_race_detector'] = {'rounds': len(r['race']['ops']), 'histories': rc['histories'], 'calls': rc['calls'], 'race_window_hits': rc['race_hits'],
@@ -753,7 +829,7 @@ def write_evidence(out, tier, proof, r, changed, widened):
         'traces_validated_against_impl': (len(seq_ops) - len(r['seq_diffs'])) + c['admitted'] + (rc['admitted'] if rc else 0),
         'rule': 'one evaluation = one line: (a) c05.serve n cur — the real Result() on a matcher put into that state; (b) c05.seq — one whole '
                 'configuration-and-call history through the real public API on a fresh builder (spec lane: default sequence, 0-4 conditions '
-                '(eq/In/Any, overlapping) with sequences of length 1..49 built by Returns, Return+AndReturn or Matches, then 4..240 calls; free lane: '
+                '(eq/In/Any, overlapping; on the variadic targets v0/v1/v2/vm argument lists of 2-3 arities, several per arity, declared back to back) with sequences of length 1..49 built by Returns, Return+AndReturn or Matches, in which adjacent positions often hold equal values (the two-result target returns (t%50, t) so tuples also repeat partially), then 4..240 calls; free lane: '
                 'configuration and calls interleaved arbitrarily; malformed lane); (c) one stamped concurrent history of one stub '
                 '(G in 2..32 goroutines from a spin barrier, K in 1..64 calls each, n from 1 to 2*G*K, one default sequence or two conditions '
                 'consumed by disjoint caller groups). Non-trivial = the history returned at least one configured value (a/b) or was a '
@@ -796,12 +872,16 @@ def replay(body):
                 rc = 1
     if body.get('hist') and ops:
         n = int(ops[0].split()[3])
-        for hs in body['hist'].split(' ; '):
-            why = hist_oracle(n, parse_hist(hs))
+        repeated = ops[0].split()[2] == 'r'
+        for part in body['hist'].split(' ; '):
+            held, hs = split_part(part)
+            why = hist_oracle((n + 1) // 2 if repeated else n, parse_hist(hs))
+            if held is not None and held != n:
+                why = f'the stub was given a sequence of {n} results but holds {held} positions'
             print(f'recorded history (n={n}): oracle: {why or "ok"}')
             if why:
                 rc = 1
-            else:
+            elif not repeated:
                 w = witness(n, parse_hist(hs)) or witness_dfs(n, parse_hist(hs))
                 print('  model: ' + ('admits' if isinstance(w, list) else 'no run of the model produces it'))
                 if not isinstance(w, list):
